@@ -66,6 +66,35 @@ theorem szinv_tranWrite {g : Ghost} {s : State} (h : SzInv g s) (id tbl : Nat)
           · exact szinv_setTran h _ hti
         · exact h
 
+/-- a write that does not report "ok" installs nothing -/
+theorem szinv_tranWrite_fail {g : Ghost} {s : State} (h : SzInv g s) (id tbl : Nat)
+    (f : Info → TDif → Except String TDif) (hne : (tranWrite s id tbl f).2 ≠ "ok") :
+    SzInv g (tranWrite s id tbl f).1 := by
+  unfold tranWrite at hne ⊢
+  cases ht : s.tran? id with
+  | none => exact h
+  | some t =>
+    have hti : TranSz g t := h.tran t (List.mem_of_find?_eq_some ht)
+    simp only [ht] at hne ⊢
+    split
+    · exact h
+    · next he =>
+      split
+      · exact szinv_setTran h _ hti
+      · next hw =>
+        split
+        · next sti d hs hd =>
+          split
+          · next d' hfd =>
+            split
+            · exact h
+            · next hex =>
+              have hex' : tbl ∉ s.excl := by simpa using hex
+              exfalso; apply hne
+              simp [he, hw, hs, hd, hfd, hex']
+          · exact szinv_setTran h _ hti
+        · exact h
+
 theorem tOut_adds {sti : Info} {d d' : TDif} {row : Row} (h : tOut sti d row = .ok d') :
     d'.adds = d.adds ++ [row] := by
   unfold tOut at h
@@ -183,12 +212,19 @@ theorem rowsIn_ext {g : Ghost} (nk : List (Off × Key)) {rows : List Row} (h : R
   obtain ⟨r0, hr0, rfl⟩ := List.mem_map.mp hr
   exact h r0 hr0
 
-/-- every step keeps `SzInv`, given `DbInv` and a fresh offset for the new record -/
+theorem okRow_none_of_newRow {s : State} {op : Op} (h : op.newRow = none) : okRow s op = none := by
+  simp [okRow, h]
+
+theorem gstep_of_none {g : Ghost} {s : State} {op : Op} (h : okRow s op = none) : gstep g s op = g := by
+  simp [gstep, h]
+
+/-- every step keeps `SzInv`, given `DbInv` and a fresh offset for the record a successful write adds -/
 theorem szinv_step {g : Ghost} {s : State} (h : DbInv s) (hz : SzInv g s) (op : Op)
-    (hf : OpFresh g op) : SzInv (gstep g op) (step s op).1 := by
-  have hz' : SzInv (gstep g op) s := szinv_mono hz (fun rows hr => hr.step op hf)
+    (hf : OpFresh g s op) : SzInv (gstep g s op) (step s op).1 := by
+  have hz' : SzInv (gstep g s op) s := szinv_mono hz (fun rows hr => hr.step s op hf)
   cases op with
   | table n =>
+    rw [gstep_of_none (okRow_none_of_newRow rfl)]
     refine ⟨?_, hz.tran⟩
     intro j ti hj
     simp only [step] at hj
@@ -201,6 +237,7 @@ theorem szinv_step {g : Ghost} {s : State} (h : DbInv s) (hz : SzInv g s) (op : 
         rw [← hj]; exact ⟨by simp [newInfo, rowsSize], by simp [newInfo, RowsIn.nil]⟩
       | succ x => simp [hd] at hj
   | begin_ id =>
+    rw [gstep_of_none (okRow_none_of_newRow rfl)]
     refine ⟨hz.tbl, ?_⟩
     intro t ht
     simp only [step] at ht
@@ -212,20 +249,49 @@ theorem szinv_step {g : Ghost} {s : State} (h : DbInv s) (hz : SzInv g s) (op : 
       subst hd
       exact ⟨(hz.tbl j sti hs).1, (hz.tbl j sti hs).2, by simp [TDif.start, RowsIn.nil]⟩
   | out id tbl row =>
-    exact szinv_tranWrite hz' id tbl _ (fun sti d d' hfd hA => by
-      rw [tOut_adds hfd]; exact hA.append (RowsIn.new g _ row rfl))
+    cases hk : okRow s (.out id tbl row) with
+    | none =>
+      have hne : (step s (.out id tbl row)).2 ≠ "ok" := by
+        intro e; simp [okRow, Op.newRow, e] at hk
+      rw [gstep_of_none hk]
+      exact szinv_tranWrite_fail hz id tbl _ hne
+    | some row' =>
+      have hr : row' = row := by
+        simp only [okRow, Op.newRow] at hk
+        split at hk
+        · exact (Option.some.inj hk).symm
+        · cases hk
+      subst hr
+      exact szinv_tranWrite hz' id tbl _ (fun sti d d' hfd hA => by
+        rw [tOut_adds hfd]; exact hA.append (RowsIn.new g s _ row' hk))
   | del id tbl off =>
-    exact szinv_tranWrite hz' id tbl _ (fun sti d d' hfd hA => hA.sub (tDel_adds hfd))
+    rw [gstep_of_none (okRow_none_of_newRow rfl)]
+    exact szinv_tranWrite hz id tbl _ (fun sti d d' hfd hA => hA.sub (tDel_adds hfd))
   | upd id tbl off row =>
-    exact szinv_tranWrite hz' id tbl _ (fun sti d d' hfd hA =>
-      (hA.append (RowsIn.new g (.upd id tbl off row) row rfl)).sub (tUpd_adds hfd))
+    cases hk : okRow s (.upd id tbl off row) with
+    | none =>
+      have hne : (step s (.upd id tbl off row)).2 ≠ "ok" := by
+        intro e; simp [okRow, Op.newRow, e] at hk
+      rw [gstep_of_none hk]
+      exact szinv_tranWrite_fail hz id tbl _ hne
+    | some row' =>
+      have hr : row' = row := by
+        simp only [okRow, Op.newRow] at hk
+        split at hk
+        · exact (Option.some.inj hk).symm
+        · cases hk
+      subst hr
+      exact szinv_tranWrite hz' id tbl _ (fun sti d d' hfd hA =>
+        (hA.append (RowsIn.new g s _ row' hk)).sub (tUpd_adds hfd))
   | abort id =>
+    rw [gstep_of_none (okRow_none_of_newRow rfl)]
     simp only [step]
     cases ht : s.tran? id with
     | none => exact hz
     | some t => exact szinv_setTran hz _ (hz.tran t (List.mem_of_find?_eq_some ht))
   | commit id => exact szinv_commit h hz id
   | mergeC tbl n =>
+    rw [gstep_of_none (okRow_none_of_newRow rfl)]
     simp only [step]
     split
     · split
@@ -233,21 +299,25 @@ theorem szinv_step {g : Ghost} {s : State} (h : DbInv s) (hz : SzInv g s) (op : 
       · exact hz
     · exact hz
   | mergeA =>
+    rw [gstep_of_none (okRow_none_of_newRow rfl)]
     simp only [step]
     split
     · exact ⟨szinv_modTbl_get hz.tbl _ _ (fun ti hti => hti), hz.tran⟩
     · exact hz
   | persistC =>
+    rw [gstep_of_none (okRow_none_of_newRow rfl)]
     simp only [step]
     split
     · exact ⟨hz.tbl, hz.tran⟩
     · exact hz
   | persistA =>
+    rw [gstep_of_none (okRow_none_of_newRow rfl)]
     simp only [step]
     split
     · next res _ => exact ⟨persist_fold_sz res s.mt hz.tbl, hz.tran⟩
     · exact hz
   | buildC tbl nk =>
+    rw [gstep_of_none (okRow_none_of_newRow rfl)]
     simp only [step]
     split
     · refine ⟨hz.tbl, ?_⟩
@@ -258,6 +328,7 @@ theorem szinv_step {g : Ghost} {s : State} (h : DbInv s) (hz : SzInv g s) (op : 
       · exact hz.tran x hx
     · exact hz
   | buildA =>
+    rw [gstep_of_none (okRow_none_of_newRow rfl)]
     simp only [step]
     split
     · next b _ _ =>
@@ -267,48 +338,52 @@ theorem szinv_step {g : Ghost} {s : State} (h : DbInv s) (hz : SzInv g s) (op : 
 
 /-! ## every history whose records get fresh offsets -/
 
-/-- the offsets the history writes records to -/
-def newOffs (ops : List Op) : List Off := ops.filterMap fun op => op.newRow.map (·.off)
+/-- the offsets of the records the successful writes of the history add, in order -/
+def okOffs : State → List Op → List Off
+  | _, [] => []
+  | s, op :: ops => ((okRow s op).map (·.off)).toList ++ okOffs (step s op).1 ops
 
-def grun (g : Ghost) (ops : List Op) : Ghost := ops.foldl gstep g
+def grun : Ghost → State → List Op → Ghost
+  | g, _, [] => g
+  | g, s, op :: ops => grun (gstep g s op) (step s op).1 ops
 
 theorem dbsz_run : ∀ (ops : List Op) (g : Ghost) (s : State), DbInv s → SzInv g s → OpsOK s ops →
-    (newOffs ops).Nodup → (∀ o ∈ newOffs ops, o ∉ g.used) →
-    DbInv (run s ops) ∧ SzInv (grun g ops) (run s ops) := by
+    (okOffs s ops).Nodup → (∀ o ∈ okOffs s ops, o ∉ g.used) →
+    DbInv (run s ops) ∧ SzInv (grun g s ops) (run s ops) := by
   intro ops
   induction ops with
   | nil => intro g s h hz _ _ _; exact ⟨h, hz⟩
   | cons op ops ih =>
     intro g s h hz hok hnd hfr
-    have hfresh : OpFresh g op := by
+    have hfresh : OpFresh g s op := by
       intro row hr
-      exact hfr row.off (by simp [newOffs, hr])
-    refine ih (gstep g op) (step s op).1 (dbinv_step h op hok.1) (szinv_step h hz op hfresh) hok.2 ?_ ?_
-    · cases hr : op.newRow with
-      | none => simpa [newOffs, hr] using hnd
+      exact hfr row.off (by simp [okOffs, hr])
+    refine ih (gstep g s op) (step s op).1 (dbinv_step h op hok.1) (szinv_step h hz op hfresh) hok.2 ?_ ?_
+    · cases hr : okRow s op with
+      | none => simpa [okOffs, hr] using hnd
       | some row =>
-        have : (row.off :: newOffs ops).Nodup := by simpa [newOffs, hr] using hnd
+        have : (row.off :: okOffs (step s op).1 ops).Nodup := by simpa [okOffs, hr] using hnd
         exact (List.nodup_cons.mp this).2
     · intro o ho
-      cases hr : op.newRow with
+      cases hr : okRow s op with
       | none =>
         simp only [gstep, hr]
-        exact hfr o (by simpa [newOffs, hr] using ho)
+        exact hfr o (by simpa [okOffs, hr] using ho)
       | some row =>
-        have hnd' : (row.off :: newOffs ops).Nodup := by simpa [newOffs, hr] using hnd
+        have hnd' : (row.off :: okOffs (step s op).1 ops).Nodup := by simpa [okOffs, hr] using hnd
         simp only [gstep, hr, List.mem_cons, not_or]
         refine ⟨fun e => (List.nodup_cons.mp hnd').1 (e ▸ ho), ?_⟩
-        exact hfr o (by simp only [newOffs, List.filterMap_cons, hr, Option.map_some]; exact List.mem_cons_of_mem _ ho)
+        exact hfr o (by simp only [okOffs, hr, Option.map_some, Option.toList_some]; exact List.mem_append_right _ ho)
 
 /-- every reachable state: counts and sizes are exact -/
-theorem info_exact_reachable (ops : List Op) (hok : OpsOK State.init ops) (hfr : (newOffs ops).Nodup)
+theorem info_exact_reachable (ops : List Op) (hok : OpsOK State.init ops) (hfr : (okOffs State.init ops).Nodup)
     (j : Nat) (ti : Info) (hj : (run State.init ops).mt[j]? = some ti) :
     ti.nrows = ti.rows.length ∧ ti.size = rowsSize ti.rows := by
   obtain ⟨h, hz⟩ := dbsz_run ops Ghost.init State.init dbinv_init szinv_init hok hfr (by simp [Ghost.init])
   exact ⟨(h.tbl j ti hj).cnt, (hz.tbl j ti hj).1⟩
 
 /-- … and so is what every transaction reports about its own view -/
-theorem info_exact_tran_reachable (ops : List Op) (hok : OpsOK State.init ops) (hfr : (newOffs ops).Nodup)
+theorem info_exact_tran_reachable (ops : List Op) (hok : OpsOK State.init ops) (hfr : (okOffs State.init ops).Nodup)
     (t : Tran) (ht : t ∈ (run State.init ops).trans) (j : Nat) (sti : Info) (d : TDif)
     (hs : t.snap[j]? = some sti) (hd : t.dif[j]? = some d) :
     sti.nrows + d.dn = (d.view sti.rows).length ∧ sti.size + d.ds = rowsSize (d.view sti.rows) := by
